@@ -2,7 +2,13 @@
 
 Real code: generate -> Generator.get_component / get_indexed_symbol / get_integer with the subscript
 literals replaced by CrossHair symbolic integers (unbounded for scalar subscripts; a window around
-the valid range for slices and loop ranges, which numpy.arange / Python slicing realise)."""
+the valid range for slices and loop ranges, which numpy.arange / Python slicing realise).
+
+Extended family (second half of props/h23.py): subscript expressions of the loop variable (descending, strided,
+offset), stepped loop ranges, loops over either dimension of a matrix / of an array-of-components member / over a
+scalar, for-statements in functions, strided and matrix slices, degenerate shapes, shapes that can never be valid,
+subscripts computed from Integer parameters, der(x[i]).  After a counterexample in one of these shards the shard's
+window is swept concretely and every failing argument tuple is reported under its own (stable) case id."""
 import json
 import os
 import re
@@ -25,6 +31,10 @@ def replay_call(func, args):
         return repr(e)
 
 
+# extended-family functions ALL of whose arguments have a finite window: a concrete sweep of a shard is exhaustive
+BOUNDED = {"forexpr", "forstep", "formix", "forscalar", "forfunc", "slice3n", "mslice"}
+
+
 def windowed_sweep(rep, v, swept):
     """Extended-family functions have a finite window (props/h23.py WINDOWED): after a counterexample the shard's
     window is swept concretely (no CrossHair) and EVERY failing argument tuple is reported, so that the case ids
@@ -42,7 +52,7 @@ def windowed_sweep(rep, v, swept):
     for args, res in bad:
         rep.violation(f"{v.func}({', '.join(map(str, args))})",
                       f"subscript case {v.func}{tuple(args)} [{h.describe(v.func, args)}]: real generate() does not reject / select correctly (harness returned {res})",
-                      {"function": v.func, "args": list(args), "crosshair": v.detail})
+                      {"function": v.func, "args": list(args), "model_fragment": h.describe(v.func, args), "crosshair": v.detail})
     return bool(bad)
 
 
@@ -106,7 +116,10 @@ def main():
     cov["transitions"] = max(1, len(vs))
     cov["traces_validated_against_impl"] = sum(1 for v in vs if v.kind in ("counterexample", "exception"))
     cov["samples"] = [{"function": v.func, "pin": v.pin, "verdict": v.kind, "secs": round(v.secs, 1)} for v in vs][:12]
-    cov["exhaustive"] = all(v.kind == "confirmed" for v in vs)
+    # a shard that ended in a counterexample was cut short by CrossHair, but a bounded shard was then swept completely
+    cov["exhaustive"] = all(v.kind == "confirmed" or (v.kind == "counterexample" and v.func in BOUNDED and any(k[0] == v.func for k in swept)) for v in vs)
+    cov["shard_seconds"] = {f"{v.func}[{v.pin}]": round(v.secs, 1) for v in vs}
+    cov["shards_swept_concretely"] = sorted(f"{f}{dict(p)}" for f, p in swept)
     cov["functions_encoded"] = ["casadi.generator.generate -> Generator.get_component, get_indexed_symbol, get_integer (symbolically executed by CrossHair)"]
     cov["bounds"] = ("scalar subscripts x[i], A[i,j] (2x3; 1x1" + ("; 1x3, 3x1, 2x2" if thorough else "") + "), q[i].w[j], s[i], lhs x[i], der(x[i]), x[k] with k an Integer parameter, "
                      "A[:,r], A[r,:], s[i,j], x[i,j], A[i,j,i]: ALL integers (unbounded); slices a:b window [-3, n+3], n in 1..3; strided slices a:s:b, s in 1..3, window [-1, n+2]x[-1, n+4], "
